@@ -352,6 +352,7 @@ pub struct Ul {
     pub toklen: usize,
     pub segs: Vec<Vec<u8>>,
     pub follow: bool,          // follow the server's (possibly smaller) block size
+    pub grow: usize,           // from the second block on the request carries an extra option of this many bytes
 }
 
 pub fn upload(out: &mut Out, start: Instant, u: &Ul, r: &mut Rng, xid: u64) {
@@ -391,7 +392,8 @@ pub fn upload(out: &mut Out, start: Instant, u: &Ul, r: &mut Rng, xid: u64) {
         for _ in 0..dup {
             mid = mid.wrapping_add(1);
             let tl = if r.chance(1, 3) { r.below(u.toklen as u64 + 1) as usize } else { u.toklen };
-            let pkt = mkreq(&ReqSpec { code: 3, typ: 0, mid, tok: r.bytes(tl), segs: &u.segs, b1: Some((num as u16, more, cur_szx)), b2: None, pay: chunk.clone(), extra: vec![] });
+            let extra = if u.grow > 0 && k > 0 { vec![(15u16, vec![b'q'; u.grow])] } else { vec![] };
+            let pkt = mkreq(&ReqSpec { code: 3, typ: 0, mid, tok: r.bytes(tl), segs: &u.segs, b1: Some((num as u16, more, cur_szx)), b2: None, pay: chunk.clone(), extra });
             let (o, mut req) = h.ireq(out, ep, &pkt, &tag);
             if o["k"] != "ok" {
                 aborted = "intercept_request failed";
@@ -518,7 +520,7 @@ pub fn rec_block1(args: &Args) {
         let m = match r.below(3) { 0 => 1280usize.max(ov + 12 + bs), 1 => ov + 12 + bs + r.below(40) as usize, _ => (ov + 12 + bs).max(1152) };
         let dups: Vec<usize> = match r.below(4) { 0 => vec![1], 1 => vec![2], 2 => vec![1, 3, 1, 2], _ => vec![3, 1] };
         let abandoned = if r.chance(1, 2) { r.below(7) as usize } else { 0 };
-        let u = Ul { body_len, szx, m, dups, abandoned, abandoned_len: bs * 7 + 5, toklen, segs: sg, follow: false };
+        let u = Ul { body_len, szx, m, dups, abandoned, abandoned_len: bs * 7 + 5, toklen, segs: sg, follow: false, grow: 0 };
         xid += 1;
         upload(&mut out, start, &u, &mut r, xid);
     }
@@ -592,9 +594,27 @@ pub fn rec_budget(args: &Args) {
                 let ov = probe.to_bytes_unlimited().unwrap().len();
                 let bs = 16usize << szx.min(6);
                 let m = match r.below(4) { 0 => ov + 28, 1 => ov + 12 + bs + r.below(3) as usize, 2 => ov + 12 + bs + 31 + r.below(3) as usize, _ => r.range(ov as u64 + 28, 1280) as usize }.min(1280).max(ov + 28);
-                let u = Ul { body_len: (3 * bs + 5).min(2500), szx, m, dups: vec![1], abandoned: 0, abandoned_len: 0, toklen, segs: sg, follow: true };
+                let u = Ul { body_len: (3 * bs + 5).min(2500), szx, m, dups: vec![1], abandoned: 0, abandoned_len: 0, toklen, segs: sg.clone(), follow: true, grow: 0 };
                 xid += 1;
                 upload(&mut out, start, &u, &mut r, xid);
+                // the overhead grows in the middle of the upload (an extra option from the second block on)
+                // while the budget only just admitted the first block: later acknowledgements must shrink
+                let grow = *r.pick(&[13usize, 24, 40]);
+                let m2 = (ov + 12 + bs + r.below(12) as usize).min(1280).max(ov + grow + 28);
+                let u = Ul { body_len: (3 * bs + 5).min(2500), szx: szx.min(6), m: m2, dups: vec![1], abandoned: 0, abandoned_len: 0, toklen, segs: sg.clone(), follow: true, grow };
+                xid += 1;
+                upload(&mut out, start, &u, &mut r, xid);
+                // an abandoned upload left a buffer; a client resumes at a non-zero block with a size the budget does not admit
+                if szx >= 2 {
+                    let m3 = (ov + 28 + r.below(30) as usize).min(1280);
+                    let mut h = H::new(&mut out, m3, 3_600_000, start);
+                    for k in 0..2u16 {
+                        let pkt = mkreq(&ReqSpec { code: 3, typ: 0, mid: k, tok: r.bytes(toklen), segs: &sg, b1: Some((k, true, 0)), b2: None, pay: body_bytes(16, 3), extra: vec![] });
+                        let _ = h.ireq(&mut out, "client-u", &pkt, &json!({"kind": "resume-prefix"}));
+                    }
+                    let pkt = mkreq(&ReqSpec { code: 3, typ: 0, mid: 9, tok: r.bytes(toklen), segs: &sg, b1: Some((1, true, szx)), b2: None, pay: body_bytes(16usize << szx.min(6), 4), extra: vec![] });
+                    let _ = h.ireq(&mut out, "client-u", &pkt, &json!({"kind": "resume-big"}));
+                }
             }
         }
     }
@@ -951,6 +971,35 @@ pub fn rec_expiry(args: &Args) {
         run_step(&mut h, &mut out, &json!({"op": "ireq", "ep": "sleeper", "req": jpkt(&p1), "app": {"some": true, "v": {"code": 0x45, "pay": jbytes(&body_bytes(40, 8)), "opts": []}}}), &json!({"kind": "expiry-traffic-follow"}));
         let u1 = mkreq(&ReqSpec { code: 3, typ: 0, mid: next_mid(), tok: vec![5], segs: &up, b1: Some((1, false, 0)), b2: None, pay: vec![7, 7], extra: vec![] });
         run_step(&mut h, &mut out, &json!({"op": "ireq", "ep": "sleeper", "req": jpkt(&u1), "app": {"some": true, "v": {"code": 0x44, "pay": [], "opts": []}}}), &json!({"kind": "expiry-traffic-follow"}));
+    }
+    // the expiry elapses between intercept_request and intercept_response of one exchange (a slow
+    // application), and a response is pushed through the handler as the first use after expiry
+    for ttl in if thorough { vec![30u64, 50] } else { vec![40u64] } {
+        let mut h = H::new(&mut out, 1152, ttl, start);
+        let tag = json!({"kind": "slow-app", "ttl": ttl});
+        // early negotiation leaves a Block2 hint and an upload buffer in the entry
+        let p0 = mkreq(&ReqSpec { code: 1, typ: 0, mid: next_mid(), tok: vec![1], segs: &seg, b1: None, b2: Some((2, false, 0)), pay: vec![], extra: vec![] });
+        let (o, mut req) = h.ireq(&mut out, "slow", &p0, &tag);
+        std::thread::sleep(Duration::from_millis(ttl * 4 + 5));
+        out.ev(json!({"op": "sleep", "ms": ttl * 4 + 5}));
+        if o["k"] == "ok" && o["handled"] == false {
+            if let Some(resp) = req.response.as_mut() {
+                resp.message.payload = body_bytes(40, 2);
+            }
+            let _ = h.iresp(&mut out, "slow", &mut req, &tag);
+        }
+        // cached transfer, expiry, then a response for the same key without a preceding request
+        let p1 = mkreq(&ReqSpec { code: 1, typ: 0, mid: next_mid(), tok: vec![2], segs: &up, b1: None, b2: Some((0, false, 0)), pay: vec![], extra: vec![] });
+        run_step(&mut h, &mut out, &json!({"op": "ireq", "ep": "slow", "req": jpkt(&p1), "app": {"some": true, "v": {"code": 0x45, "pay": jbytes(&body_bytes(100, 3)), "opts": []}}}), &tag);
+        let p2 = mkreq(&ReqSpec { code: 1, typ: 0, mid: next_mid(), tok: vec![3], segs: &up, b1: None, b2: Some((1, false, 0)), pay: vec![], extra: vec![] });
+        run_step(&mut h, &mut out, &json!({"op": "ireq", "ep": "slow", "req": jpkt(&p2), "app": {"some": false}}), &tag);
+        run_step(&mut h, &mut out, &json!({"op": "sleep", "ms": ttl * 4 + 5}), &tag);
+        let p3 = mkreq(&ReqSpec { code: 1, typ: 0, mid: next_mid(), tok: vec![4], segs: &up, b1: None, b2: None, pay: vec![], extra: vec![] });
+        let mut pushed = CoapRequest::from_packet(p3, Ep::new("slow"));
+        if let Some(resp) = pushed.response.as_mut() {
+            resp.message.payload = body_bytes(40, 5);
+        }
+        let _ = h.iresp(&mut out, "slow", &mut pushed, &json!({"kind": "pushed-response"}));
     }
     // reclamation: abandoned transfers on distinct endpoints; idle; one unrelated call; nothing left alive
     for n in if thorough { vec![1usize, 5, 20, 50] } else { vec![1usize, 12] } {
